@@ -39,7 +39,11 @@ CLAIMS = {
              "window of at most the granted number; a hold opens nothing; no TP.DT while waiting for CTS; the send-window loop (induction "
              "over the loop) emits consecutive packets, never beyond the wait-on packet, and returns to WAITING_CTS there; a BAM record emits "
              "exactly one TP.DT per due deadline and re-arms at now + interval.  Partial: the trace-level statement is the induction of these "
-             "steps over a session (not yet a single theorem); J1939-22 pacing is covered by correspondence/oracle only.",
+             "steps over a session (not yet a single theorem).  J1939-22: the first CTS grants min(own maximum, RTS limit, total segments) for "
+             "segment 1; a busy (session, pair) is refused with BUSY and untouched; an in-order segment at the window border is answered by "
+             "one CTS granting min(negotiated window, segments after the border), below the border by nothing; a CTS opens at the "
+             "originator a window of at most the granted number, its own maximum and the rest of the message, a hold opens nothing "
+             "(c09_22_*).  J1939-22 BAM pacing and the send loop are covered by correspondence/oracle only.",
         note="Model/Dll21.lean is tied to j1939_21.py by lock-step correspondence on recorded nominal and hostile scripts (tables dumped after "
              "every received frame) and its leaves are regenerated from the source; oracle: real stacks + an independent reference peer "
              "(windows, holds, silence after hold, RTS limits) with bus-trace analysis.",
